@@ -398,11 +398,11 @@ program on the model stack machine is identical to the evaluator's.  For every p
 model compiler accepts (`compile p = some tbl`) and that lies in the fragment `progOk` of
 `C34.simulation_call_partial` — no structs, functions with at most one parameter, statements `let`/`var`,
 assignment to a variable, `if`/`else`, `while` with `break`/`continue`, `return`, expression statements,
-where each value / statement expression is call-free or a single invocation (`log`, `assert`, user
-functions, recursion) with call-free arguments — and every fuel `n` for which the evaluator's `run p n`
+where each value / statement expression / condition is call-free or a single invocation (`log`, `assert`,
+user functions, recursion) with call-free arguments — and every fuel `n` for which the evaluator's `run p n`
 ends with a value `v`: the machine `runVM tbl m` (some fuel `m`) ends with the same value and **exactly
 the same sequence of log lines**, the lines of all activations in the same order.
-Missing: invocations nested inside operands, argument lists and conditions (the forms whose relative
+Missing: invocations nested inside operands and argument lists (the forms whose relative
 order `binary`, `args`, `and_`, `or_`, … above fix for the evaluator — for these the two engines are tied
 only by the stream `evalorder`), runs that end in an error (the trace up to the error), functions with
 several parameters, L1. -/
@@ -413,7 +413,8 @@ theorem vm_same_partial (p : Program) (tbl : Table) (hc : compile p = some tbl) 
   exact ⟨m, by rw [hm], by rw [hm]⟩
 
 open Verif.Model.Lang.VM in
--- non-vacuity: the example program of C34 (`f` logs its argument, `main` calls it in a loop and logs)
+-- non-vacuity: the example program of C34 (`f` logs its argument, `main` calls it in a loop whose
+-- condition calls `small`, and logs)
 -- is in the fragment and its evaluator trace is "0", "1", "2"
 example : (compile exProg).isSome = true ∧ progOk exProg = true ∧
     (match (run exProg 40).out with | .ok _ => true | _ => false) = true ∧
